@@ -188,10 +188,10 @@ package bip39
 //@   watch tokens.n = n
 //@   watchseq tokens.idx 24 = widx(lg, sat(t, j))
 //@   assigns mappings
-//@   ensures [C02,C03,C10,C13,C15] F1: implies(!validCount(n), result == ErrWordLen)
-//@   ensures [C02,C03,C10,C13,C15] F2: implies(validCount(n) && !allKnown(t, lg, n), result != nil && !is(result, ErrWordLen) && !is(result, ErrChecksumIncorrect) && exists(j, 0, n, widx(lg, sat(t, j)) < 0 && contains(msg(result), sat(t, j))))
-//@   ensures [C02,C03,C10,C13,C15] F3: implies(validCount(n) && allKnown(t, lg, n) && !checksumOK(t, lg, n), result == ErrChecksumIncorrect)
-//@   ensures [C02,C03,C10,C13,C15] F4: implies(validCount(n) && allKnown(t, lg, n) && checksumOK(t, lg, n), result == nil)
+//@   ensures [C02,C03,C08,C10,C13,C15] F1: implies(!validCount(n), result == ErrWordLen)
+//@   ensures [C02,C03,C08,C10,C13,C15] F2: implies(validCount(n) && !allKnown(t, lg, n), result != nil && !is(result, ErrWordLen) && !is(result, ErrChecksumIncorrect) && exists(j, 0, n, widx(lg, sat(t, j)) < 0 && contains(msg(result), sat(t, j))))
+//@   ensures [C02,C03,C08,C10,C13,C15] F3: implies(validCount(n) && allKnown(t, lg, n) && !checksumOK(t, lg, n), result == ErrChecksumIncorrect)
+//@   ensures [C02,C03,C08,C10,C13,C15] F4: implies(validCount(n) && allKnown(t, lg, n) && checksumOK(t, lg, n), result == nil)
 //@   ensures [C03] S: implies(result == nil, validTokens(fields(nfkd(mnemonic)), lg))
 //@   loop 1 assigns BigVal[entBig]
 //@   loop 1 invariant range: -1 <= rangeindex && rangeindex < wordCount && wordCount == n && validCount(n) && len(wordList) == n
